@@ -6,9 +6,10 @@ import numpy as np
 
 
 class IBM:
-    def __init__(self, modules, kills=None, age=False, logfile=None, marker="sibm", agelimit=None, **kw):
+    def __init__(self, modules, kills=None, age=False, logfile=None, marker="sibm", agelimit=None, kill_tags=None, **kw):
         self.modules = modules
         self.kills = {int(k): list(v) for k, v in (kills or {}).items()}
+        self.kill_tags = {int(k): list(v) for k, v in (kill_tags or {}).items()}
         self.age, self.agelimit = age, agelimit
         self.logfile, self.marker = logfile, marker
         self.log = []
@@ -26,6 +27,9 @@ class IBM:
         dead = self.kills.get(step, [])
         if dead:
             st["alive"] = st.alive & ~np.isin(st.pid, dead)
+        tags = self.kill_tags.get(step, [])
+        if tags:
+            st["alive"] = st.alive & ~np.isin(st["tag"], tags)
 
     def close(self):
         self.closed += 1
